@@ -39,3 +39,10 @@ impl<T> ShimIntoIter for Vec<T> {
     #[verifier::external_body]
     fn shim_iter(self) -> (r: ShimIter<T>) { unimplemented!() }
 }
+pub open spec fn slice_items<'a, T>(v: &'a [T]) -> Seq<&'a T> { Seq::new(v@.len(), |i: int| &v@[i]) }
+impl<'a, T> ShimIntoIter for &'a [T] {
+    type Item = &'a T;
+    open spec fn items(&self) -> Seq<&'a T> { slice_items(*self) }
+    #[verifier::external_body]
+    fn shim_iter(self) -> (r: ShimIter<&'a T>) { unimplemented!() }
+}
